@@ -381,6 +381,8 @@ fn run_thread(sh: SArc<Sh>, t: usize) {
     let code = &prog.threads[t - 1];
     let mut regs: Vec<i64> = Vec::new();
     // guards are declared after `sh` so that they are dropped before it
+    // handles owned by this thread's frame (dropped when the frame unwinds)
+    let mut held: HashMap<String, Slot> = HashMap::new();
     let mut mg: HashMap<usize, MG> = HashMap::new();
     let mut rg: HashMap<usize, RG> = HashMap::new();
     let mut wg: HashMap<usize, WG> = HashMap::new();
@@ -445,9 +447,18 @@ fn run_thread(sh: SArc<Sh>, t: usize) {
                 } else {
                     sh.handles.get().remove(&ins.o).map(|s| (ins.o.clone(), s))
                 };
+                // ... or the Receiver of channel o2, or the Track named k (values with a loom-aware Drop)
+                let owned_rx = if ins.o2.is_empty() { None } else { let i = sh.idx[&ins.o2]; sh.rxs[i].get().take().map(|r| (i, r)) };
+                let owned_trk = if ins.k.is_empty() { None } else { sh.trks.get().remove(&ins.k).map(|t| (ins.k.clone(), t)) };
                 let h = loom::thread::spawn(move || {
                     if let Some((n, s)) = owned {
                         sh2.handles.get().insert(n, s);
+                    }
+                    if let Some((i, r)) = owned_rx {
+                        *sh2.rxs[i].get() = Some(r);
+                    }
+                    if let Some((n, t)) = owned_trk {
+                        sh2.trks.get().insert(n, t);
                     }
                     run_thread(sh2, u)
                 });
@@ -563,6 +574,14 @@ fn run_thread(sh: SArc<Sh>, t: usize) {
                     Slot::Raw(p) => unsafe { loom::sync::Arc::decrement_strong_count(p) },
                 }
             }
+            "ahold" => {
+                let s = sh.handles.get().remove(&ins.o).expect("harness: ahold of missing handle");
+                held.insert(ins.o.clone(), s);
+            }
+            "adropheld" => match held.remove(&ins.o).expect("harness: adropheld of a handle not held") {
+                Slot::Arc(a) => drop(a),
+                Slot::Raw(p) => unsafe { loom::sync::Arc::decrement_strong_count(p) },
+            },
             "acount" => {
                 let s = sh.handles.get().remove(&ins.o).expect("harness: acount of missing handle");
                 if let Slot::Arc(a) = &s {
@@ -659,4 +678,7 @@ fn run_thread(sh: SArc<Sh>, t: usize) {
     drop(wg);
     drop(rg);
     drop(mg);
+    for (_, s) in held.drain() {
+        std::mem::forget(s);      // not released by the program: leaked, as everything else
+    }
 }
